@@ -102,3 +102,86 @@ func c09CarriedBlobs(m *pbfModel, f *c09Fields, e ast.Expr, seen map[types.Objec
 	}
 	return out
 }
+
+// c09SentBuilds resolves a value that is sent to the workers back to the constructions of input pairs (with a blob) it
+// can denote, wherever they are: literals in the expression, `&lit` / `*p`, locals and parameters (the argument at
+// every call / go statement, which may lie in the spawner), results of declared functions (every return), and
+// assignments to the blob field of a pair variable. fi is the function that lexically contains e.
+func c09SentBuilds(m *pbfModel, f *c09Fields, e ast.Expr, fi *FuncInfo, seen map[types.Object]bool, depth int) []c09SentBuild {
+	info := m.info
+	var out []c09SentBuild
+	if e == nil || depth > 10 {
+		return nil
+	}
+	e = ast.Unparen(e)
+	switch x := e.(type) {
+	case *ast.CompositeLit:
+		if t, ok := info.TypeOf(x).(*types.Named); ok && t == f.inPairT {
+			if blob := c09LitField(info, x, f.blobIn); blob != nil {
+				out = append(out, c09SentBuild{c09Build{pos: x.Pos(), blob: blob, off: c09LitField(info, x, f.pairOffsetIn), src: x}, fi})
+			}
+		}
+		return out
+	case *ast.UnaryExpr:
+		if x.Op == token.AND {
+			return c09SentBuilds(m, f, x.X, fi, seen, depth+1)
+		}
+		return nil
+	case *ast.StarExpr:
+		return c09SentBuilds(m, f, x.X, fi, seen, depth+1)
+	case *ast.CallExpr:
+		fn := callee(info, x)
+		if fn == nil || m.funcs[fn] == nil {
+			return nil
+		}
+		for _, ret := range m.returnsOf(m.funcs[fn], 0) {
+			out = append(out, c09SentBuilds(m, f, ret, m.funcs[fn], seen, depth+1)...)
+		}
+		return out
+	case *ast.Ident:
+		o, ok := objOf(info, x).(*types.Var)
+		if !ok || o.IsField() || seen[o] {
+			return nil
+		}
+		seen[o] = true
+		defer delete(seen, o)
+		for _, d := range m.defsOf(o) {
+			switch d.kind {
+			case "assign", "arg":
+				out = append(out, c09SentBuilds(m, f, d.e, d.fi, seen, depth+1)...)
+			case "result":
+				if call, ok := ast.Unparen(d.e).(*ast.CallExpr); ok {
+					if fn := callee(info, call); fn != nil && m.funcs[fn] != nil {
+						for _, ret := range m.returnsOf(m.funcs[fn], d.idx) {
+							out = append(out, c09SentBuilds(m, f, ret, m.funcs[fn], seen, depth+1)...)
+						}
+					}
+				}
+			}
+		}
+		// field-wise construction of the variable
+		if ofi := m.funcAt(o.Pos()); ofi != nil {
+			ast.Inspect(ofi.Decl.Body, func(n ast.Node) bool {
+				if as, ok := n.(*ast.AssignStmt); ok {
+					for _, b := range c09Builds(m, f, as, ofi) {
+						if b.src == ast.Node(as) {
+							for _, l := range as.Lhs {
+								if fieldOf(info, l) == f.blobIn && rootObj(info, l) == types.Object(o) {
+									out = append(out, c09SentBuild{b, ofi})
+								}
+							}
+						}
+					}
+				}
+				return true
+			})
+		}
+	}
+	return out
+}
+
+// c09SentBuild is a pair construction together with the function that contains it.
+type c09SentBuild struct {
+	c09Build
+	fi *FuncInfo
+}
